@@ -521,6 +521,11 @@ func c04(w *core.World, r *core.Report) {
 			r.Check(late == "", "MERGED-BEFORE-VALIDATE", core.Site(low, "nothing added after Validate"), w.InstrPos(V), "content is added to the tree after it was validated: "+late)
 		}
 	}
+	// ---- INVOLVED-PATHS (shared with C01.PIPELINE-ORDER and C09)
+	if low := w.Func("pkg/datastore", "Datastore", "lowlevelTransactionSet"); low != nil {
+		r.Rule("INVOLVED-PATHS", 3, "(shared with C01 / C09) the alternatives of the other intents are loaded for the paths of the OLD and of the NEW content of every intent of the transaction: a value that becomes active only because the intent above it gives the path up is in the validated tree only if the paths of the previous content are among them.")
+		ruleInvolvedPaths(w, r, low, "INVOLVED-PATHS")
+	}
 	if rep := w.Func("pkg/datastore", "Datastore", "replaceIntent"); rep != nil {
 		V := firstCall(rep, "tree.RootEntry.Validate")
 		A := firstCall(rep, "tree.RootEntry.AddCacheUpdatesRecursive", "tree.RootEntry.ImportConfig")
@@ -549,12 +554,12 @@ func c04(w *core.World, r *core.Report) {
 	r.Rule("RESULTS", 5, "verdict plumbing: ValidationResults.HasErrors is true iff some intent has errors (depends on the errors slices), ValidationResultIntent.AddEntry files errors as errors and warnings as warnings, RootEntry.Validate adds every entry received until the channel is closed.")
 	if f := w.Func("pkg/types", "ValidationResults", "HasErrors"); f != nil {
 		sl := core.ReturnSlice(f, -1)
-		r.Check(sl.HasFieldLoad("types.ValidationResultIntent.errors"), "RESULTS", core.Site(f, "depends on errors"), w.Pos(f.Pos()), "HasErrors must look at the recorded errors")
+		r.Check(sl.HasFieldLoadDeep("types.ValidationResultIntent.errors", 2), "RESULTS", core.Site(f, "depends on errors"), w.Pos(f.Pos()), "HasErrors must look at the recorded errors")
 		if j := w.Func("pkg/types", "ValidationResults", "JoinErrors"); j != nil {
 			// the error handed back for a refused request is built from the same slices HasErrors looks at, by errors.Join
 			// (backs the fact "JoinErrors() is non-nil when HasErrors()" that the guard rules of C03 use)
 			js := core.ReturnSlice(j, -1)
-			r.Check(js.HasFieldLoad("types.ValidationResultIntent.errors") && js.HasCallTo("errors.Join"), "RESULTS", core.Site(j, "joins the recorded errors"), w.Pos(j.Pos()), "JoinErrors must join the errors HasErrors counts")
+			r.Check(js.HasFieldLoadDeep("types.ValidationResultIntent.errors", 2) && js.HasCallTo("errors.Join"), "RESULTS", core.Site(j, "joins the recorded errors"), w.Pos(j.Pos()), "JoinErrors must join the errors HasErrors counts")
 		}
 	}
 	if f := w.Func("pkg/types", "ValidationResultIntent", "AddEntry"); f != nil {
@@ -568,6 +573,7 @@ func c04(w *core.World, r *core.Report) {
 			}
 		}
 	}
+	ruleJoinAccumulates(w, r, "RESULTS")
 	r.Check(len(core.CallsTo(rootValidate, "types.ValidationResults.AddEntry")) == 1, "RESULTS", core.Site(rootValidate, "collects every entry"), w.Pos(rootValidate.Pos()), "the collector adds what it receives")
 }
 
